@@ -1227,6 +1227,49 @@ def rule_R25(toks, fired):
     return toks
 
 
+def rule_R26(toks, fired):
+    """assert!(C [, "message"]);  ->  if !(C) { diverge(); }      (the documented panic seen from the caller's side: the call
+    does not return.  `diverge` is a prelude fn with `ensures false`.  Used for the second, "completeness" extraction of a
+    checking function: whatever its postcondition says is then known to follow from the checks alone.)"""
+    i = 0
+    while i < len(toks):
+        t = toks[i]
+        if t.kind == "ident" and t.text == "assert" and not t.syn and toks[next_code(toks, i + 1)].text == "!":
+            b = next_code(toks, i + 1)
+            p = next_code(toks, b + 1)
+            if toks[p].text == "(":
+                pe = match_close(toks, p)
+                parts = split_top_commas(toks, p + 1, pe)
+                cond = _strip_ws(toks[parts[0][0]:parts[0][1]])
+                end = next_code(toks, pe + 1)
+                if toks[end].text != ";":
+                    raise ExtractError("R26: assert! is not a statement")
+                new = synth("if !(") + cond + synth(") { diverge(); }")
+                toks = toks[:i] + new + toks[end + 1:]
+                fired["R26"] = fired.get("R26", 0) + 1
+                i += len(new)
+                continue
+        i += 1
+    return toks
+
+
+def rule_R27(toks, fired):
+    """assert!(C, "message", ..);  ->  assert!(C);     (the message only matters to the panic text)"""
+    i = 0
+    while i < len(toks):
+        t = toks[i]
+        if t.kind == "ident" and t.text == "assert" and not t.syn and toks[next_code(toks, i + 1)].text == "!":
+            p = next_code(toks, next_code(toks, i + 1) + 1)
+            if toks[p].text == "(":
+                pe = match_close(toks, p)
+                parts = split_top_commas(toks, p + 1, pe)
+                if len(parts) > 1:
+                    toks = toks[:parts[0][1]] + toks[pe:]
+                    fired["R27"] = fired.get("R27", 0) + 1
+        i += 1
+    return toks
+
+
 def rule_R18(toks, fired):
     """bare max(a, b) / min(a, b) (core::cmp, imported by `use`) -> usize_max(a, b) / usize_min(a, b): the generic
     Ord-based functions have no Verus spec; the prelude helpers are ASSUMED to be the usize instances"""
@@ -1347,9 +1390,9 @@ def rule_R12(toks, fired):
     return out
 
 
-RULES = {"R25": rule_R25, "R24": rule_R24, "R23": rule_R23, "R22": rule_R22, "R21": rule_R21, "R20": rule_R20, "R19": rule_R19, "R18": rule_R18, "R17": rule_R17, "R13": rule_R13, "R5": rule_R5, "R1": rule_R1, "R1f": rule_R1f, "R2": rule_R2, "R3": rule_R3, "R4": rule_R4, "R6": rule_R6, "R7": rule_R7,
+RULES = {"R27": rule_R27, "R26": rule_R26, "R25": rule_R25, "R24": rule_R24, "R23": rule_R23, "R22": rule_R22, "R21": rule_R21, "R20": rule_R20, "R19": rule_R19, "R18": rule_R18, "R17": rule_R17, "R13": rule_R13, "R5": rule_R5, "R1": rule_R1, "R1f": rule_R1f, "R2": rule_R2, "R3": rule_R3, "R4": rule_R4, "R6": rule_R6, "R7": rule_R7,
          "R10": rule_R10, "R11": rule_R11, "R12": rule_R12}
-RULE_ORDER = ["R12", "R25", "R7", "R6", "R13", "R18", "R19", "R17", "R21", "R22", "R23", "R24", "R20", "R10", "R4", "R3", "R5", "R11", "R2", "R1", "R1f"]
+RULE_ORDER = ["R12", "R25", "R7", "R6", "R13", "R18", "R19", "R17", "R21", "R22", "R23", "R24", "R26", "R27", "R20", "R10", "R4", "R3", "R5", "R11", "R2", "R1", "R1f"]
 
 
 def apply_rules(toks, rules, fired):
